@@ -364,3 +364,66 @@ class StubBoundary(_BoundaryDomain):
         if getattr(d, "t_normal", None) is None:
             d.t_normal = d.env.tensor(d.tag + "_nu", (d.n, d.space.dim))
         return d.t_normal
+
+
+# ---- concrete shape parameters (for properties that do not depend on the geometry) ----
+
+
+class ConcShapeEnv:
+    """env proxy: tensors requested by the shape builders (shape parameters) are CONCRETE
+    non-axis-aligned values, everything else (parameter rows, filters, ...) stays symbolic.
+    Random draws and accept/reject outcomes remain symbolic in any case."""
+
+    TABLE = {
+        "c0": [0.25, 0.5, -0.25], "c1": [0.5, -0.25, 0.125], "r0": [1.0], "r1": [0.25],
+        "lb0": [-0.5], "ub0": [1.5], "lb1": [0.125], "ub1": [0.25],
+        "o0": [-0.75, -0.5], "a0": [1.25, -0.25], "a1": [0.25, 0.125], "b0": [-0.25, 1.0],
+        "p0": [0.5, -0.25, 0.75],
+    }
+    SHIFT = {"A": 0.0, "B": 0.375, "C": -0.25, "I": 0.0, "P": 0.0, "T": 0.0, "S": 0.0, "Q": 0.0}
+
+    def __init__(self, env):
+        self.env = env
+        self.symbolic = env.symbolic
+        self.L = env.L
+        self.inputs = env.inputs
+
+    def __getattr__(self, k):
+        return getattr(self.env, k)
+
+    def _values(self, name, n):
+        import re
+        m = re.match(r"^([A-Z])(c|r|lb|ub|o|a|b|p)([01])$", name)
+        if m:
+            tag, kind, idx = m.groups()
+            vals = list(self.TABLE[kind + idx])[:n]
+            if idx == "0" and kind in ("c", "lb", "ub", "o", "a", "b", "p"):
+                vals = [v + self.SHIFT.get(tag, 0.0) for v in vals]
+            return vals
+        if name.startswith("tr"):  # translation vector / slope
+            return [0.5, -0.75, 0.25][:n] if name.endswith("0") else [0.25, 0.5, 0.125][:n]
+        if name.startswith("rotw"):
+            return [0.5] if name.endswith("0") else [0.25]
+        if name.startswith("rotp"):
+            return [0.25, -0.5][:n]
+        return None
+
+    def tensor(self, name, shape, dtype=None, requires_grad=False):
+        shape_t = (shape,) if isinstance(shape, int) else tuple(shape)
+        n = 1
+        for s in shape_t:
+            n *= s
+        vals = self._values(name, n)
+        if vals is None:
+            return self.env.tensor(name, shape, dtype, requires_grad)
+        import numpy as np
+        from fractions import Fraction
+        if self.symbolic:
+            from symtorch import symt as S
+            arr = np.empty(shape_t, dtype=object)
+            if shape_t == ():
+                arr[()] = Fraction(vals[0])
+            else:
+                arr.reshape(-1)[:] = [Fraction(v) for v in vals]
+            return S.from_array(arr, dtype or torch.get_default_dtype())
+        return torch.tensor(vals, dtype=torch.float64).reshape(shape_t)
